@@ -300,6 +300,23 @@ static Textbook textbook_hllc(const Case &c) {
 static const char *hllc_region_name(int r) {
   return r == 0 ? "hllc-star-state" : r < 0 ? "hllc-left-state" : "hllc-right-state";
 }
+/// sub-regime of the approximate solver: which state its flux is built from,
+/// or the fact that its wave speed estimates are not ordered
+static std::string hllc_sub(const Textbook &T) {
+  return T.ordered ? hllc_region_name(T.region) : "hllc-unordered-speeds";
+}
+/// does the approximate solver take its non-vacuum branch?  (its own test,
+/// evaluated with the same double expressions)
+static bool hllc_takes_wave_branch(const HLLCRiemannSolver &S, const Case &c) {
+  if (c.rL == 0. || c.pL == 0. || c.rR == 0. || c.pR == 0.)
+    return false;
+  const CoordinateVector<> uLf = cv(c.uL) - cv(c.vf), uRf = cv(c.uR) - cv(c.vf);
+  const double vL = CoordinateVector<>::dot_product(uLf, cv(c.n));
+  const double vR = CoordinateVector<>::dot_product(uRf, cv(c.n));
+  const double aL = std::sqrt(S._gamma * c.pL * (1. / (c.rL + DBL_MIN)));
+  const double aR = std::sqrt(S._gamma * c.pR * (1. / (c.rR + DBL_MIN)));
+  return !(S._tdgm1 * (aL + aR) <= vR - vL);
+}
 
 // ---------------------------------------------------------------------------
 // per-thread accumulation
@@ -391,14 +408,16 @@ static void check_lattice_case(Ctx &X, const Case &c) {
   Textbook T;
   T.region = 0;
   T.ordered = false;
-  if (f.vac == 0) {
+  // at the vacuum limit the approximate solver's own test decides its branch
+  const bool hllc_waves = f.vac == 0 || (f.vac == 2 && hllc_takes_wave_branch(*X.hl, c));
+  if (hllc_waves) {
     T = textbook_hllc(c);
     ++A.hllc_regions[T.region + 1];
   }
   if (X.verbose) {
     printf("%s\n face frame: vL=%.17g vR=%.17g aL=%.17g aR=%.17g vacuum limit %.17g regime %s\n",
            case_text(c).c_str(), f.vL, f.vR, f.aL, f.aR, f.lim, reg.c_str());
-    if (f.vac == 0)
+    if (hllc_waves)
       printf(" textbook speeds SL=%.17Lg S*=%.17Lg SR=%.17Lg ordered=%d region %s\n", T.SL, T.Sstar, T.SR,
              (int)T.ordered, hllc_region_name(T.region));
   }
@@ -408,7 +427,8 @@ static void check_lattice_case(Ctx &X, const Case &c) {
     const bool exact = is == 0;
     const RiemannSolver &S = exact ? (const RiemannSolver &)*X.ex : (const RiemannSolver &)*X.hl;
     const char *sn = exact ? "exact" : "hllc";
-    const std::string sub = (!exact && f.vac == 0) ? std::string(":") + hllc_region_name(T.region) : "";
+    // name of the regime in the keys of this solver
+    const std::string regs = (!exact && hllc_waves) ? "no-vacuum:" + hllc_sub(T) : reg;
     const Flux F = call(S, c);
     ++A.calls;
     Fsolver[is] = F;
@@ -440,13 +460,18 @@ static void check_lattice_case(Ctx &X, const Case &c) {
         if (X.verbose)
           printf(" %-5s swapped         %s ratio %.3g\n", sn, flux_text(G).c_str(), r);
         if (r > 1.)
-          report(X, c, sn, O_SWAP, reg + sub,
+          report(X, c, sn, O_SWAP, regs,
                  [&]() { return fmt("flux %s, swapped+reversed %s: %s sum %.6g tolerance %.3g", flux_text(F).c_str(),
                      flux_text(G).c_str(), cname[wi], G.c(wi) + F.c(wi), tol[wi]); });
       }
     }
-    // --- Galilean boost of both states and the face
-    {
+    // --- Galilean boost of both states and the face.  At the vacuum limit
+    // the boost moves the velocity difference by rounding and the approximate
+    // solver switches between its wave model and the exact vacuum solution,
+    // which do not join continuously: no claim there.
+    if (!exact && f.vac == 2)
+      ++A.boost_ties_skipped;
+    else {
       const Flux G = call(S, c.rL, c.uL + c.w, c.pL, c.rR, c.uR + c.w, c.pR, c.n, c.vf + c.w);
       ++A.calls;
       if (!finite(G))
@@ -465,7 +490,7 @@ static void check_lattice_case(Ctx &X, const Case &c) {
         if (X.verbose)
           printf(" %-5s boosted         %s ratio %.3g\n", sn, flux_text(G).c_str(), r);
         if (r > 1.)
-          report(X, c, sn, O_BOOST, reg + sub,
+          report(X, c, sn, O_BOOST, regs,
                  [&]() { return fmt("flux %s, boosted by [%.17g, %.17g, %.17g] %s: %s differs from the transformed flux "
                      "by %.6g, tolerance %.3g",
                      flux_text(F).c_str(), c.w.x, c.w.y, c.w.z, flux_text(G).c_str(), cname[wi],
@@ -494,14 +519,19 @@ static void check_lattice_case(Ctx &X, const Case &c) {
     }
   }
   // --- ordered wave speeds: textbook HLLC
-  if (okf[1] && f.vac == 0) {
+  if (okf[1] && hllc_waves) {
     if (!T.ordered)
       ++A.unordered;
     else {
+      // k = 64 on the sum of the magnitudes of the terms of the textbook
+      // formula, and on the global scale of the case: the normal velocities
+      // are themselves projections (u - vface).n that carry the rounding of
+      // the full velocity vectors
+      const Scale s = flux_scale(c, f, 0.);
       double want[5], tol[5];
       for (int i = 0; i < 5; ++i) {
         want[i] = (double)T.F[i];
-        tol[i] = 64. * EPS * (double)T.mag[i];
+        tol[i] = 64. * EPS * std::max((double)T.mag[i], s.c(i));
       }
       int wi;
       const double r = compare(Fsolver[1], want, tol, wi);
@@ -510,7 +540,7 @@ static void check_lattice_case(Ctx &X, const Case &c) {
         printf(" textbook HLLC         (%.17g, [%.17g, %.17g, %.17g], %.17g) ratio %.3g\n", want[0], want[1],
                want[2], want[3], want[4], r);
       if (r > 1.)
-        report(X, c, "hllc", O_TEXTBOOK, reg + ":" + hllc_region_name(T.region),
+        report(X, c, "hllc", O_TEXTBOOK, "no-vacuum:" + hllc_sub(T),
                [&]() { return fmt("hllc %s textbook (%.17g, [%.17g, %.17g, %.17g], %.17g) with SL=%.17Lg S*=%.17Lg "
                    "SR=%.17Lg: %s differs by %.6g, tolerance %.3g",
                    flux_text(Fsolver[1]).c_str(), want[0], want[1], want[2], want[3], want[4], T.SL, T.Sstar,
@@ -610,7 +640,7 @@ static void check_mirror_case(Ctx &X, const Case &c) {
     A.note(O_MIRROR, ratio);
     if (ratio > 1.)
       report(X, c, sn, O_MIRROR,
-             regime_name(f) + (exact ? std::string("") : std::string(":") + hllc_region_name(T.region)),
+             exact ? regime_name(f) : "no-vacuum:" + hllc_sub(T),
              [&]() { return fmt("flux %s: mass flux %.6g (tolerance %.3g), energy flux %.6g (tolerance %.3g)",
                  flux_text(F).c_str(), F.m, rel * s.m, F.E, rel * s.E); });
   }
@@ -1000,6 +1030,18 @@ int main(int argc, char **argv) {
     gammas = {1.0001, 1.01, 1.1, 1.2, 1.4, 5. / 3., 2.};
     ks = {0., 0.25, -0.25, 0.5, -0.5, 1., -1., 1.5, -1.5, 2., -2., 3., -3., 6., -6.};
   }
+  if (!A.get("gamma-list").empty()) { // experiments: --gamma-list 1.4,2
+    gammas.clear();
+    std::string gl = A.get("gamma-list");
+    for (size_t p0 = 0; p0 < gl.size();) {
+      size_t p1 = gl.find(',', p0);
+      if (p1 == std::string::npos)
+        p1 = gl.size();
+      gammas.push_back(atof(gl.substr(p0, p1 - p0).c_str()));
+      p0 = p1 + 1;
+    }
+    R.cap("restricted to the adiabatic indices given with --gamma-list");
+  }
   const std::vector< double > vals = {0., 1e-12, 1e-3, 1., 1e3, 1e9};
   std::vector< SideState > side;
   for (double r : vals)
@@ -1175,6 +1217,7 @@ int main(int argc, char **argv) {
     merge(T, a);
   R.evaluations = T.calls;
   R.nontrivial = T.nontrivial;
+  R.violation_count += T.dups;
   R.rule =
       "family " + family +
       ": Cartesian product of the alphabets (gamma; density and pressure per side from {0, 1e-12, 1e-3, 1, 1e3, "
@@ -1185,6 +1228,7 @@ int main(int argc, char **argv) {
       "de-duplicated).";
   R.set("cases", (double)T.cases);
   R.set("aborts", (double)T.aborts);
+  R.set("hllc_boost_checks_skipped_at_vacuum_limit_tie", (double)T.boost_ties_skipped);
   if (family == "identical")
     R.set("identical_pressureless_moving_states_treated_as_vacuum", (double)T.cold_moving);
   R.set("hllc_wave_speeds_not_ordered_skipped", (double)T.unordered);
